@@ -75,6 +75,9 @@ func TestC16RoundTrip(t *testing.T) {
 		}
 		args := core.LazyArgumentMap{}
 		want := map[string]any{}
+		// invocation JSON comes from any JSON writer (Go: raw UTF-8; Python:
+		// \uXXXX incl. surrogate pairs and ", " separators; PHP: "\/")
+		style := rapid.SampledFrom([]*jsonx.Style{nil, nil, jsonx.PythonStyle, {ASCII: true, EscapeSlash: true}}).Draw(t, "jsonStyle")
 		var splitArgs []string
 		classes := []string{"roundtrip"}
 		rich := false
@@ -101,13 +104,13 @@ func TestC16RoundTrip(t *testing.T) {
 				splitArgs = append(splitArgs, p.Name)
 				wrapped := jsonx.NewObj()
 				wrapped.Set("split", v)
-				args[p.Name] = jsonx.Marshal(wrapped)
+				args[p.Name] = jsonx.MarshalStyle(wrapped, style)
 				want[p.Name] = wrapped
 				classes = append(classes, "split-arg")
 				rich = true
 			} else {
 				v = u.GenValue(t, p.T, vc)
-				args[p.Name] = jsonx.Marshal(v)
+				args[p.Name] = jsonx.MarshalStyle(v, style)
 				want[p.Name] = v
 			}
 			if u.Struct(p.T.Base) != nil || p.T.Map > 0 || p.T.Arr > 1 {
